@@ -144,9 +144,12 @@ class MetaPBESolver(PBESolver, ABC):
     def _init_stats_(self) -> None:
         super()._init_stats_()
         self.subsolver._init_stats_()
-        for name, val in self.subsolver._stats.items():
-            if name not in self._stats:
-                self._stats[name] = val
+        # statistics only the sub-solver keeps are mirrored; those this solver keeps itself are its own
+        self._sub_stat_names = [
+            name for name in self.subsolver._stats if name not in self._stats
+        ]
+        for name in self._sub_stat_names:
+            self._stats[name] = self.subsolver._stats[name]
 
     @classmethod
     @abstractmethod
@@ -180,8 +183,8 @@ class MetaPBESolver(PBESolver, ABC):
         self.subsolver._close_task_solving_(
             task, enumerator, time_used, solution, last_program
         )
-        for name, val in self.subsolver._stats.items():
-            self._stats[name] = val
+        for name in self._sub_stat_names:
+            self._stats[name] = self.subsolver._stats[name]
         super()._close_task_solving_(
             task, enumerator, time_used, solution, last_program
         )
